@@ -19,6 +19,7 @@ const (
 	KStmts   = 0 // run Budget statements, then park
 	KOpEnd   = 1 // run until the current operation ends
 	KTaskEnd = 2 // run until the task ends
+	KSync    = 3 // run until the Budget-th statement that uses a synchronisation primitive (park before it), or the task ends
 )
 
 // Events a task sends to the scheduler.
@@ -53,6 +54,26 @@ var (
 	TraceOn bool // Mode 1: record the sequence of sites
 	Trace   []int32
 )
+
+// SyncSite[site] is true for the statements listed in SyncSites (filled by InitSyncSites).
+var SyncSite []bool
+
+// Crit[site] is true for statements lexically inside a Lock()...Unlock() section. A task is not
+// parked there unless ParkInCrit is set: a task parked with a lock in its hands deadlocks every
+// other task that needs the lock (the simulator does not own the library's locks).
+var Crit []bool
+var ParkInCrit bool
+
+func InitSyncSites() {
+	SyncSite = make([]bool, NSites+1)
+	for _, s := range SyncSites {
+		SyncSite[s] = true
+	}
+	Crit = make([]bool, NSites+1)
+	for _, s := range CritSites {
+		Crit[s] = true
+	}
+}
 
 var globals = map[string]map[string]interface{}{}
 
@@ -92,12 +113,29 @@ func Y(site int32) {
 		if t.OpLimit > 0 && t.OpSteps > t.OpLimit {
 			panic(StepLimit{})
 		}
+		crit := !ParkInCrit && int(site) < len(Crit) && Crit[site]
+		if t.Kind == KSync {
+			if t.Budget <= 0 && !crit { // postponed from inside a critical section
+				park(t, EvYield)
+				return
+			}
+			if int(site) < len(SyncSite) && SyncSite[site] {
+				t.Budget--
+				if t.Budget <= 0 && !crit {
+					park(t, EvYield)
+				}
+			}
+			return
+		}
 		if t.Kind != KStmts {
 			return
 		}
 		t.Budget--
 		if t.Budget > 0 {
 			return
+		}
+		if crit {
+			return // park at the first statement after the critical section
 		}
 		park(t, EvYield)
 	}
